@@ -492,14 +492,25 @@ class Broken:
     """A yaml_loader entry without add_constructor."""
 
 
-def make_cb(w, kind, idx):
+def make_cb(w, kind, idx, structural=False):
+    """Harness callbacks return hashable markers.  A catch-all (None key) constructor is structural: it builds
+    mappings and sequences from their children, so that what happens to KEYS and items stays observable."""
     lab = '%s:%d' % (kind, idx)
+    yaml = w['yaml']
+
+    def build(loader, node, marker):
+        # (through the library's own helpers, as a user's catch-all would)
+        if structural and isinstance(node, yaml.MappingNode):
+            return loader.construct_mapping(node, deep=True)
+        if structural and isinstance(node, yaml.SequenceNode):
+            return loader.construct_sequence(node, deep=True)
+        return marker
     if kind == 'con':
         def cb(loader, node):
-            return ['cb', idx]
+            return build(loader, node, ('cb', idx))
     elif kind == 'mcon':
         def cb(loader, suffix, node):
-            return ['mcb', idx, suffix]
+            return build(loader, node, ('mcb', idx, suffix))
     elif kind == 'rep':
         def cb(dumper, data):
             return dumper.represent_scalar('!r', 'rep-%d' % idx)
@@ -516,7 +527,7 @@ def real_args(w, op, idx):
     kind = op['kind']
     if kind in ('con', 'mcon'):
         key = [] if op.get('bad') == 'unhashable' else op['key']
-        return [key, make_cb(w, kind, idx)]
+        return [key, make_cb(w, kind, idx, structural=op['key'] is None)]
     if kind in ('rep', 'mrep'):
         key = [] if op.get('bad') == 'unhashable' else w['types'][op['key']]
         return [key, make_cb(w, kind, idx)]
@@ -697,7 +708,7 @@ def step(w, model, op, idx):
 
 LOAD_PROBES = [('load', '!a x'), ('load', '!b [1, 2]'), ('load', '!p/s1 x'), ('load', '!q/s2 {k: v}'),
                ('load', '!u x'), ('load', '5'), ('load', 'plain'), ('load', '!y1 {v: 1}'), ('load', '!y2 {v: 2}'),
-               ('load', '!<tag:example.com,2000:z> [x1]'),
+               ('load', '!<tag:example.com,2000:z> [x1]'), ('load', 'plain: value'), ('load', '[plain, {other: value}]'),
                ('tag', 'x1'), ('tag', 'y2'), ('tag', '12'), ('tag', 'zz'), ('tag', 'plain'), ('tag', '2'),
                ('tags', 'k1: {k2: v}\nk3: [w]\n'), ('tags', '[x1]')]
 DUMP_PROBES = [('dump', 'TA'), ('dump', 'TB'), ('dump', 'TC'), ('dump', 'int'), ('dump', 'Y1'), ('dump', 'Y2'), ('dump', 'Y3'),
@@ -707,8 +718,8 @@ DUMPV = {'k1': {'k2': 'v'}, 'k3': ['w']}
 
 
 def result_form(w, v):
-    if isinstance(v, list) and v and v[0] in ('cb', 'mcb'):
-        return v
+    if isinstance(v, tuple) and v and v[0] in ('cb', 'mcb'):
+        return list(v)
     for n, cls in w['yobj'].items():
         if type(v) is cls:
             return ['yobj', n, sorted((k, repr(x)) for k, x in vars(v).items())]
@@ -795,14 +806,68 @@ PROBE_TAGS = {'!a x': '!a', '!b [1, 2]': '!b', '!p/s1 x': '!p/s1', '!q/s2 {k: v}
               '!y1 {v: 1}': '!y1', '!y2 {v: 2}': '!y2', '!<tag:example.com,2000:z> [x1]': 'tag:example.com,2000:z'}
 
 
+STR_TAG, MAP_TAG, SEQ_TAG = 'tag:yaml.org,2002:str', 'tag:yaml.org,2002:map', 'tag:yaml.org,2002:seq'
+NESTED_PROBES = {'plain: value': {'plain': 'value'}, '[plain, {other: value}]': ['plain', {'other': 'value'}]}
+NOPRED = object()
+
+
+def predict_nested(model, name, shape):
+    """Value of a probe made of plain str scalars in block / flow collections, by the restated rule applied to
+    EVERY node (keys included).  NOPRED when the rule's answer depends on something not modelled here."""
+    if model.eff(name, 'pres'):
+        return NOPRED                     # path resolvers may retag any of the nodes
+    for lst in model.eff(name, 'ires').values():
+        for tag, rx in lst:
+            if rx.startswith('R:') and any(re.match(rx.split(':', 2)[2], s) for s in ('plain', 'value', 'other')):
+                return NOPRED
+    con, mcon = model.eff(name, 'con'), model.eff(name, 'mcon')
+
+    def harness(lab):
+        return lab is not None and lab.startswith('H:')
+
+    def node(shape):
+        tag = STR_TAG if isinstance(shape, str) else MAP_TAG if isinstance(shape, dict) else SEQ_TAG
+        lab, suffix = dispatch_con(con, mcon, tag)
+        catch_all = harness(lab) and (con.get('None') == lab or mcon.get('None') == lab) and ('s:' + tag) not in con
+        if isinstance(shape, str):
+            if harness(lab):
+                n = int(lab.rsplit(':', 1)[1])
+                return ('cb', n) if lab.startswith('H:con:') else ('mcb', n, suffix)
+            if lab is None or lab.endswith('construct_yaml_str'):
+                return shape
+            return NOPRED
+        if harness(lab) and not catch_all:
+            n = int(lab.rsplit(':', 1)[1])
+            return ('cb', n) if lab.startswith('H:con:') else ('mcb', n, suffix)
+        if not (catch_all or lab is None or lab.endswith(('construct_yaml_map', 'construct_yaml_seq'))):
+            return NOPRED
+        if isinstance(shape, dict):
+            out = {}
+            for k, v in shape.items():
+                kk, vv = node(k), node(v)
+                if kk is NOPRED or vv is NOPRED:
+                    return NOPRED
+                out[kk] = vv
+            return out
+        items = [node(x) for x in shape]
+        return NOPRED if any(x is NOPRED for x in items) else items
+    return node(shape)
+
+
 def predicted_marker(w, model, name, probe):
     """What the restated dispatch rule says about a probe, when it says something checkable."""
     kind, arg = probe
     side = model.classes[name]['side']
+    if side == 'L' and kind == 'load' and arg in NESTED_PROBES:
+        pred = predict_nested(model, name, NESTED_PROBES[arg])
+        return None if pred is NOPRED else ['nested', pred]
     if side == 'L' and kind == 'load' and arg in PROBE_TAGS:
-        lab, suffix = dispatch_con(model.eff(name, 'con'), model.eff(name, 'mcon'), PROBE_TAGS[arg])
+        con, mcon = model.eff(name, 'con'), model.eff(name, 'mcon')
+        lab, suffix = dispatch_con(con, mcon, PROBE_TAGS[arg])
         if lab is None:
             return None
+        if lab in (con.get('None'), mcon.get('None')) and ('s:' + PROBE_TAGS[arg]) not in con and not arg.endswith(' x'):
+            return None       # a structural catch-all builds the collection from its children: no single marker
         if lab.startswith('H:con:'):
             return ['cb', int(lab[6:])]
         if lab.startswith('H:mcon:'):
@@ -827,6 +892,10 @@ def predicted_marker(w, model, name, probe):
 
 
 def marker_matches(w, model, pred, got):
+    if pred[0] == 'nested':
+        if got[0] == 'exc':
+            return True       # e.g. a marker made the key unhashable elsewhere: nothing to conclude
+        return got == result_form(w, pred[1])
     if pred[0] in ('cb', 'mcb'):
         return got == pred
     if pred[0] in ('yobj', 'ztag') and got[0] == 'exc':
@@ -897,6 +966,8 @@ def compare_all(w, model, initial, out, where, behaviour_for, memo):
             if pm is not None:
                 out['probes']['dispatch_predictions_checked'] = out['probes'].get('dispatch_predictions_checked', 0) + 1
                 if not marker_matches(w, model, pm, got):
+                    if pm[0] == 'nested':
+                        pm = ['nested', result_form(w, pm[1])]
                     return {'class': 'dispatch-differs-from-rule', 'detail': dict(where, cls=name, probe=list(p), predicted=pm, got=got)}
     return None
 
